@@ -245,6 +245,39 @@ pub fn main(args: &Args) -> i32 {
         emit("delete", "q", &json!({"table": cps("Foobar"), "cond": cnd}), d.to_string());
         others += 1;
     }
+    // several restrictions added one by one (the builder ANDs them): each keeps its own meaning in the text,
+    // whatever its outermost operator is
+    let c_or = bin("or", col("x"), col("y"));
+    let c_or2 = bin("or", col("u"), un("not", col("v")));
+    let c_cmp = bin("lt", col("Foo"), lit(&Value::Int(17)));
+    let c_not = un("not", col("Bar"));
+    let chains: Vec<Vec<J>> = vec![vec![c_or.clone(), c_cmp.clone()], vec![c_cmp.clone(), c_or.clone()], vec![c_or.clone(), c_or2.clone()], vec![c_not.clone(), c_or.clone()],
+                                   vec![c_or.clone(), c_cmp.clone(), c_or2.clone()], vec![bin("and", col("x"), col("y")), c_or.clone()]];
+    for ch in &chains {
+        let folded = ch.iter().skip(1).fold(ch[0].clone(), |acc, c| bin("and", acc, c.clone()));
+        use msi::Select;
+        let mut s1 = Select::table("A");
+        let mut sj = Select::table("A").inner_join(Select::table("B"), j::to_expr(&conds[2]));
+        let mut u = Update::table("Foobar").set("C0", Value::Int(1));
+        let mut d = Delete::from("Foobar");
+        for c in ch {
+            s1 = s1.with(j::to_expr(c));
+            sj = sj.with(j::to_expr(c));
+            u = u.with(j::to_expr(c));
+            d = d.with(j::to_expr(c));
+        }
+        emit("select", "q", &sel(t("A"), vec![], folded.clone()), s1.to_string());
+        emit("select", "q", &sel(join("inner", t("A"), t("B"), conds[2].clone()), vec![], folded.clone()), sj.to_string());
+        // a restricted select as a join operand
+        let mut op = Select::table("B");
+        for c in ch {
+            op = op.with(j::to_expr(c));
+        }
+        emit("select", "q", &join("left", t("A"), sel(t("B"), vec![], folded.clone()), conds[2].clone()), Select::table("A").left_join(op, j::to_expr(&conds[2])).to_string());
+        emit("update", "q", &json!({"table": cps("Foobar"), "sets": [[cps("C0"), j::val(&Value::Int(1))]], "cond": folded}), u.to_string());
+        emit("delete", "q", &json!({"table": cps("Foobar"), "cond": folded}), d.to_string());
+        others += 2;
+    }
     drop(emit);
     let _ = from_cps(&json!([]));
     println!("PRINTING {}", json!({"lines": n, "exprs": n_expr, "selects": selects.len(), "other_queries": others, "tokenizer_errors": tok_errors}));
